@@ -19,6 +19,8 @@ import tempfile
 from pathlib import Path
 
 V = Path(__file__).resolve().parent.parent
+OFFSET = int(next((a.split("=", 1)[1] for a in sys.argv if a.startswith("--offset=")), "0"))   # later rounds: --offset=4 stores out_A/1 as A-5
+WAVE = int(next((a.split("=", 1)[1] for a in sys.argv if a.startswith("--wave=")), "1"))
 sys.path.insert(0, str(V / "selftest"))
 from thorough import VOLATILE  # noqa: E402
 
@@ -51,7 +53,7 @@ def verdict(root: Path) -> dict:
 
 def one(cand: Path, base: dict, baseline: bool) -> dict:
     area = cand.parent.name.replace("out_", "")
-    rid = f"{area}-{cand.name}"
+    rid = f"{area}-{int(cand.name) + OFFSET}"
     wt = Path(tempfile.mkdtemp(prefix=f"ref_{rid}_", dir=os.environ.get("TMPDIR", "/tmp")))
     shutil.rmtree(wt)
     r: dict = {"id": rid, "dir": str(cand)}
@@ -116,7 +118,7 @@ def main() -> int:
                 shutil.copy(cand / "patch.diff", dst / "patch.diff")
                 meta = json.loads((cand / "meta.json").read_text()) if (cand / "meta.json").exists() else {}
                 head = subprocess.run(["git", "-C", "/repo", "log", "--format=%h", "-1"], capture_output=True, text=True).stdout.strip()
-                meta_out = {"area": meta.get("area"), "title": meta.get("title"), "files": meta.get("files"), "what": meta.get("what"),
+                meta_out = {"area": meta.get("area"), "wave": WAVE, "title": meta.get("title"), "files": meta.get("files"), "what": meta.get("what"),
                             "why_equivalent": meta.get("why_equivalent"),
                             "author": "independent sub-agent given only an area of the code base and a scratch worktree; its own evidence: "
                                       "403-test baseline and byte-for-byte comparison of generated output and diagnostics on the "
